@@ -330,6 +330,86 @@ func (e *C16) scenario(ctx *core.Ctx) {
 		}
 		spec.Strategy.Canary = c
 	}
+	if r.Intn(3) == 0 {
+		// a manifest that spells out everything the recogniser looks at but leaves other optional
+		// fields out: default it, then drop optional fields one by one as long as it is still
+		// recognised as defaulted. Defaulting never runs on such an object, so whatever the
+		// reconcilers dereference must be guarded.
+		var full *v1.ExtendedDaemonSet
+		func() {
+			defer func() { _ = recover() }()
+			full = v1.DefaultExtendedDaemonSet(&v1.ExtendedDaemonSet{Spec: *spec}, c16Dflt[r.Intn(2)])
+		}()
+		if full != nil {
+			sp := full.Spec.DeepCopy()
+			drops := []func(*v1.ExtendedDaemonSetSpec){
+				func(x *v1.ExtendedDaemonSetSpec) { x.Strategy.ReconcileFrequency = nil },
+				func(x *v1.ExtendedDaemonSetSpec) { x.Strategy.RollingUpdate.MaxPodSchedulerFailure = nil },
+				func(x *v1.ExtendedDaemonSetSpec) { x.Strategy.RollingUpdate.MaxParallelPodCreation = nil },
+				func(x *v1.ExtendedDaemonSetSpec) { x.Strategy.RollingUpdate.SlowStartIntervalDuration = nil },
+				func(x *v1.ExtendedDaemonSetSpec) { x.Strategy.RollingUpdate.SlowStartAdditiveIncrease = nil },
+				func(x *v1.ExtendedDaemonSetSpec) { x.Strategy.RollingUpdate.MaxUnavailable = nil },
+				func(x *v1.ExtendedDaemonSetSpec) {
+					if c := x.Strategy.Canary; c != nil {
+						c.NoRestartsDuration = nil
+					}
+				},
+				func(x *v1.ExtendedDaemonSetSpec) {
+					if c := x.Strategy.Canary; c != nil {
+						c.Duration = nil
+					}
+				},
+				func(x *v1.ExtendedDaemonSetSpec) {
+					if c := x.Strategy.Canary; c != nil {
+						c.Replicas = nil
+					}
+				},
+				func(x *v1.ExtendedDaemonSetSpec) {
+					if c := x.Strategy.Canary; c != nil {
+						c.NodeSelector = nil
+					}
+				},
+				func(x *v1.ExtendedDaemonSetSpec) {
+					if c := x.Strategy.Canary; c != nil && c.AutoFail != nil {
+						c.AutoFail.MaxRestartsDuration, c.AutoFail.CanaryTimeout = nil, nil
+					}
+				},
+				func(x *v1.ExtendedDaemonSetSpec) {
+					if c := x.Strategy.Canary; c != nil && c.AutoPause != nil {
+						c.AutoPause.MaxSlowStartDuration = nil
+					}
+				},
+				func(x *v1.ExtendedDaemonSetSpec) {
+					if c := x.Strategy.Canary; c != nil {
+						c.AutoFail = nil
+					}
+				},
+				func(x *v1.ExtendedDaemonSetSpec) {
+					if c := x.Strategy.Canary; c != nil {
+						c.AutoPause = nil
+					}
+				},
+			}
+			dropped := 0
+			for _, i := range r.Perm(len(drops)) {
+				try := sp.DeepCopy()
+				drops[i](try)
+				ok := false
+				func() {
+					defer func() { _ = recover() }()
+					ok = v1.IsDefaultedExtendedDaemonSet(&v1.ExtendedDaemonSet{Spec: *try})
+				}()
+				if ok && !reflect.DeepEqual(try, sp) {
+					sp = try
+					dropped++
+				}
+			}
+			if dropped > 0 {
+				ctx.Count("C16.sparse-but-recognised-specs")
+				spec = sp
+			}
+		}
+	}
 	e.runScenario(ctx, spec)
 }
 
